@@ -1,4 +1,5 @@
 """C06 dataflow rules over MIR (R-INDEX, R-ARITH, R-ALLOC, R-AMP, R-PANIC) -- see mirflow.py."""
+import os
 from collections import defaultdict
 
 from . import mirflow
@@ -28,6 +29,10 @@ def analyse(ctx, cfg):
                     req[s.req[0]] = max(req.get(s.req[0], 0), s.req[1])
             if req != P.requires.get(n, {}):
                 P.requires[n] = req
+                changed = True
+            rr = getattr(r, "ret_range", None)
+            if rr is not None and (rr[0] > -mirflow.INF or rr[1] < mirflow.INF) and P.ret_ranges.get(n) != rr and not os.environ.get("C06_NO_RETRANGE"):
+                P.ret_ranges[n] = rr
                 changed = True
         if not changed:
             break
